@@ -161,3 +161,22 @@ From Juniper Require Translated.CensusC13.
 Theorem C13_source_census : Translated.CensusC13.census_expected_C13.
 Proof. exact Translated.CensusC13.census_C13_ok. Qed.
 Print Assumptions C13_source_census.
+
+(* ---- and complete (Conc/ParDoMatcherComplete.v): wherever its exploration converged (checked by evaluation for every
+        history the check rejects), a rejected history is the visible trace of NO run of the unreduced model; so
+        acceptance is equivalent to being a trace of the model ---- *)
+From Juniper Require Conc.ParDoMatcherComplete.
+
+Theorem C13_matcher_rejections_genuine : forall c gated evs,
+    ParDoMatcherComplete.pardo_converged c gated evs = true -> accepts_history c gated evs = false ->
+    forall ls s, run qstep (init c gated) ls = Some s -> ParDoMatcher.pardo_trace ls <> evs.
+Proof. exact ParDoMatcherComplete.pardo_reject_genuine. Qed.
+
+Theorem C13_matcher_exact : forall c gated evs,
+    ParDoMatcherComplete.pardo_converged c gated evs = true ->
+    (accepts_history c gated evs = true <->
+     exists ls s, run qstep (init c gated) ls = Some s /\ ParDoMatcher.pardo_trace ls = evs).
+Proof. exact ParDoMatcherComplete.pardo_accepts_iff. Qed.
+
+Print Assumptions C13_matcher_rejections_genuine.
+Print Assumptions C13_matcher_exact.
